@@ -134,7 +134,7 @@ impl Rectangle {
     /// height of the rectangle is zero.
     pub fn bottom_right(&self) -> Option<Point> {
         if self.size.width > 0 && self.size.height > 0 {
-            Some(self.top_left + self.size - Point::new(1, 1))
+            Some(self.top_left + (self.size - Size::new(1, 1)))
         } else {
             None
         }
